@@ -447,6 +447,16 @@ def make_cases(job):
             roots = [i for i, nd in enumerate(g["nodes"]) if nd["op"] == want]
             root = rng.choice(roots) if roots and rng.random() < 0.85 else rng.randrange(len(g["nodes"]))
             out.append({"pattern": p, "graph": g, "root": root, "rm": rng.random() < 0.6, "commute": rng.random() < 0.1})
+    elif kind == "enum_full3":
+        # patterns job[1]..job[2] of the table of core patterns with exactly 3 node patterns (no feature variants)
+        # against every <=2-node graph, every root whose operator equals the pattern root's, remove_nodes=True
+        T = enum_tables()
+        for p in T["pats"][len(T["pats2"]):][job[1] : job[2]]:
+            want = root_op(p)
+            for g in T["g2"]:
+                for root, nd in enumerate(g["nodes"]):
+                    if nd["op"] == want:
+                        out.append({"pattern": p, "graph": g, "root": root, "rm": True})
     elif kind == "enum_full":
         # patterns job[1]..job[2] of the <=2-node pattern table against every <=2-node graph, every root whose
         # operator equals the pattern root's (all other roots fail the very first test), both remove_nodes
@@ -603,9 +613,9 @@ def main(run: core.Run) -> None:
     for c in corpus:
         c.setdefault("commute", True)
 
-    n_random = run.size(90000, 400000) * scale
-    n_big = run.size(5000, 30000) * scale
-    n_enum = run.size(110000, 600000) * scale
+    n_random = run.size(90000, 300000) * scale
+    n_big = run.size(5000, 20000) * scale
+    n_enum = run.size(110000, 400000) * scale
     T = enum_tables()
     jobs = []
     per = 2500
@@ -631,6 +641,20 @@ def main(run: core.Run) -> None:
     run_jobs(None, [("cases", corpus), ("cases", G.tolerance_cases())], stats, problems, findings, known_counts, samples)
     with ctx.Pool(workers) as pool:
         run_jobs(pool, jobs, stats, problems, findings, known_counts, samples)
+        # second exhaustive block (thorough): 3-node core patterns x <=2-node graphs, dispatched in slices while
+        # the time budget lasts; the evidence says how much of it was enumerated
+        block2_total = len(T["pats"]) - len(T["pats2"])
+        block2_done = 0
+        if exhaustive:
+            step = 40 * workers
+            limit_s = float(os.environ.get("VERIF_C06_BLOCK2_LIMIT_S", "1000"))
+            while block2_done < block2_total and run.elapsed() < limit_s:
+                hi = min(block2_done + step, block2_total)
+                run_jobs(pool, [("enum_full3", k, min(k + 40, hi)) for k in range(block2_done, hi, 40)],
+                         stats, problems, findings, known_counts, samples)
+                block2_done = hi
+        stats["block2_patterns_done"] = block2_done
+        stats["block2_patterns_total"] = block2_total
     for sm in samples[:6]:
         run.sample(sm)
 
@@ -696,6 +720,11 @@ def main(run: core.Run) -> None:
                      f"None input, OrValue backtracking / dispatch with tag, two outputs) x {len(T['g2'])} host graphs with <=2 "
                      "nodes x every root whose operator equals the pattern root's x remove_nodes: "
                      + ("enumerated completely" if exhaustive else "a seeded slice in this tier (complete in the thorough tier)")
+                     + (f"; second block: the first {block2_done} of {block2_total} core patterns with exactly 3 node patterns "
+                        f"(enumeration order of c06_gen.enum_patterns(3, features=False)) x the same {len(T['g2'])} graphs x roots "
+                        "with the pattern root's operator x remove_nodes=True, "
+                        + ("enumerated completely" if block2_done == block2_total else "stopped by the time budget")
+                        if exhaustive else "")
                      + f"; {len(T['pats'])} patterns with <=3 node patterns x {len(T['graphs'])} graphs with <=3 nodes (+ their "
                      f"4-node extensions): sampled ({n_enum}); plus {n_random + n_big} seeded random pattern/graph pairs "
                      "(patterns up to 8 nodes, derived host graphs up to ~20 nodes)"),
@@ -731,7 +760,7 @@ def fingerprint_drift():
     return [f"{rel}:{q}" for rel, d in cur.items() for q, h in d.items() if rec.get(rel, {}).get(q) not in (None, h)]
 
 
-FLAG_IDS = ["C06-F1", "C06-F7a", "C06-F3", "C06-F7b", "C06-F8"]  # order of the digits in L.FLAGS
+FLAG_IDS = ["C06-F1", "C06-F7a", "C06-F3", "C06-F7b", "C06-F8", "C06-F2"]  # order of the digits in L.FLAGS
 
 
 def fixed_ids() -> set:
@@ -838,10 +867,13 @@ def special_witnesses(run, findings):
             run.known("C06-F6", "op.R(x, axes=1) against a node whose `axes` is INTS [1]: Pattern.match raises "
                       "TypeError ('int' object is not iterable) instead of reporting no match")
     if "C06-F7" in findings:
-        p2 = {"cond": True, "inputs": ["x", "y", "z"], "nodes": [node("Max", [x, y, z])], "outputs": [["O", 0, 0]]}
+        orv = ["OR", 4, None, None, None, [["O", 0, 0], ["O", 1, 0]]]
+        p2 = {"cond": True, "inputs": ["x", "y"],
+              "nodes": [node("Neg", [x]), node("Abs", [x]), node("Add", [orv, y])], "outputs": [["O", 2, 0], orv]}
         r2 = L.run_real_commute(L.build_pattern(p2), L.build_graph(g), 0, False, True)
-        if r2 == "ERR:assertion":
-            run.known("C06-F7", f"GraphPattern.commute() raises for Max(x, y, z): {r2} (swap asserts two inputs)")
+        if r2 == "ERR:notimplemented":
+            run.known("C06-F7", "GraphPattern.commute() raises NotImplementedError for a pattern that returns an OrValue "
+                      "(s = Add(OrValue([Neg(x), Abs(x)]), y); return s, the OrValue): the output is cloned separately")
 
 
 def itertools_islice(it, n):
